@@ -457,9 +457,9 @@ impl Model {
             }
             let cur = node.mode();
             let new = match &o.sel {
-                ChmodSel::All(x) => Some(node.type_bits() | x),
-                ChmodSel::Dirs(x) if k == Kind::Dir => Some(node.type_bits() | x),
-                ChmodSel::Files(x) if k == Kind::File => Some(node.type_bits() | x),
+                ChmodSel::All(x) => Some(node.type_bits() | (x & 0o7777)),
+                ChmodSel::Dirs(x) if k == Kind::Dir => Some(node.type_bits() | (x & 0o7777)),
+                ChmodSel::Files(x) if k == Kind::File => Some(node.type_bits() | (x & 0o7777)),
                 ChmodSel::Sym(s) => match chmod_sym(cur, k, s) {
                     Ok(x) => Some(x),
                     Err(0) => return vec![same(Pat::AnyErr)],
@@ -559,7 +559,7 @@ impl Model {
                     Some(Kind::Dir) => {},
                     Some(_) => return false,
                     None => {
-                        m.t.nodes.insert(cur.clone(), Node::new_dir(0o40000 | mode));
+                        m.t.nodes.insert(cur.clone(), Node::new_dir(0o40000 | (mode & 0o7777)));
                     },
                 }
             }
@@ -608,7 +608,7 @@ impl Model {
                         Some(_) => return vec![failing],
                         None => {
                             let nm = match file_mode {
-                                Some(x) => 0o100000 | x,
+                                Some(x) => 0o100000 | (x & 0o7777),
                                 None => *mode,
                             };
                             m.t.nodes.insert(dst.clone(), Node::File { data: data.clone(), mode: nm, uid: *uid, gid: *gid });
@@ -720,7 +720,7 @@ impl Model {
                         return vec![unspec()];
                     }
                     let mut m = self.with_file(&a, |_| {});
-                    m.t.nodes.get_mut(&a).unwrap().set_mode(0o100000 | mode);
+                    m.t.nodes.get_mut(&a).unwrap().set_mode(0o100000 | (mode & 0o7777));
                     vec![then(Pat::Is(Out::Path(a)), m)]
                 },
             },
@@ -729,7 +729,7 @@ impl Model {
                 if *mode == 0 {
                     return vec![unspec()];
                 }
-                self.mkdir(p, 0o40000 | mode)
+                self.mkdir(p, 0o40000 | (mode & 0o7777))
             },
             WriteAll(p, d) => self.write(p, d, false),
             AppendAll(p, d) => self.write(p, d, true),
